@@ -21,6 +21,8 @@ def gen_case(g, cid):
     pc.kind = "struct" if cid % 4 != 3 else "enum"
     if cid % 8 == 5:
         return gen_hinted(g, pc)
+    if cid % 8 == 1:
+        return gen_nested(g, pc)
     # one trait instruction per chosen name; each with its own params
     names = []
     todo = set(KINDS if pc.kind == "struct" else KINDS[:4])
@@ -369,8 +371,97 @@ def render_hinted(pc, g, fallible):
     return "\n".join(L + D) + "\n", da + "\n" + db
 
 
+# ---------------------------------------------------------------------------------------------------------------
+# nested sub-family: `..update` together with nested destinations
+#   N: flat struct gathered into nested structs through #[child(..)] (Into kinds): every nested literal is closed by the update expression, so the
+#      fields of the nested structs that no member provides come from it
+#   P: struct with a member built through a parameterised #[parent(..)] (From kinds): the same for the value that is built for the member
+# The update expression is `mk()` (generic over a trait every involved type implements with distinctive constants), so it fits at every level.
+
+def gen_nested(g, pc):
+    r = g.r
+    pc.kind = "nested"
+    pc.n_names = r.choice([["into"], ["owned_into", "ref_into"], ["owned_into"], ["ref_into"]])
+    pc.p_names = r.choice([["from"], ["from_owned", "from_ref"], ["from_ref"]])
+    pc.depth = r.choice([1, 2, 2])
+    pc.extra = {lvl: g.chance(0.7) for lvl in ("top", "v", "m")}
+    if not any(pc.extra.values()):
+        pc.extra["m" if pc.depth == 2 else "v"] = True
+    pc.ks = {nm: g.mark() % 90 + 5 for nm in ("top", "v", "m", "sd", "pm")}
+    pc.upd = r.choice(["mk()", "Mk::mk()", "{ mk() }"])
+    pc.instrs = []
+    return pc
+
+
+def render_nested(pc, g, fallible):
+    err = "super::Er" if fallible else None
+    fn = (lambda n: FALLIBLE_NAME[n]) if fallible else (lambda n: n)
+    wrap = (lambda e: f"Ok::<_, super::Er>({e})") if fallible else (lambda e: e)
+    ex, ks = pc.extra, pc.ks
+    two = pc.depth == 2
+    L = ["use super::*;", "use o2o::traits::*;", "pub trait Mk { fn mk() -> Self; }", "pub fn mk<T: Mk>() -> T { T::mk() }"]
+    m_f = "pub br: i32," + (" pub w: i32," if ex["m"] else "")
+    v_f = "pub s: i32," + (" pub m: M," if two else "") + (" pub vin: i32," if ex["v"] else "")
+    t_f = "pub d: i32, pub v: V," + (" pub mil: i32," if ex["top"] else "")
+    L.append(f"#[derive(Clone, Debug, PartialEq)]\npub struct M {{ {m_f} }}")
+    L.append(f"#[derive(Clone, Debug, PartialEq)]\npub struct V {{ {v_f} }}")
+    L.append(f"#[derive(Clone, Debug, PartialEq)]\npub struct TC {{ {t_f} }}")
+    L.append(f"impl Mk for M {{ fn mk() -> M {{ M {{ br: -1,{' w: ' + str(ks['m']) + ',' if ex['m'] else ''} }} }} }}")
+    L.append(f"impl Mk for V {{ fn mk() -> V {{ V {{ s: -2,{' m: mk(),' if two else ''}{' vin: ' + str(ks['v']) + ',' if ex['v'] else ''} }} }} }}")
+    L.append(f"impl Mk for TC {{ fn mk() -> TC {{ TC {{ d: -3, v: mk(),{' mil: ' + str(ks['top']) + ',' if ex['top'] else ''} }} }} }}")
+    sc = Item("struct", "SC", shape="named", vis="pub ")
+    for nm in pc.n_names:
+        sc.attrs.append(Instr(fn(nm), "trait", ty="TC", hint=None, err=err, params=[("update", pc.upd)]))
+    sc.attrs.append(Instr("child_parents", "child_parents", container=None, entries=[dict(path="v", ty="V", hint=None)] + ([dict(path="v.m", ty="M", hint=None)] if two else [])))
+    sc.fields = [Field("d", "i32"), Field("s", "i32", [Instr("child", "child", container=None, path="v")])]
+    if two:
+        sc.fields.append(Field("br", "i32", [Instr("child", "child", container=None, path="v.m")]))
+    # P: member built through a parameterised parent
+    L.append("#[derive(Clone, Debug, PartialEq)]\npub struct PM { pub br: i32, pub y: i32, pub w: i32 }")
+    L.append("#[derive(Clone, Debug, PartialEq)]\npub struct FC { pub br: i32, pub y: i32, pub d: i32 }")
+    L.append(f"impl Mk for PM {{ fn mk() -> PM {{ PM {{ br: -4, y: -5, w: {ks['pm']} }} }} }}")
+    L.append(f"impl Mk for SD {{ fn mk() -> SD {{ SD {{ d: -6, m: mk(), c: {ks['sd']} }} }} }}")
+    sd = Item("struct", "SD", shape="named", vis="pub ")
+    for nm in pc.p_names:
+        sd.attrs.append(Instr(fn(nm), "trait", ty="FC", hint=None, err=err, params=[("update", pc.upd)]))
+    sd.fields = [Field("d", "i32"), Field("m", "PM", [Instr("parent", "parent", container=None, fields="br, y")]), Field("c", "i32", [Instr("ghost", "ghost", container=None, action=None)])]
+    dn = sc.render(derive="#[derive(Clone, Debug, PartialEq, o2o::o2o)]")
+    dp = sd.render(derive="#[derive(Clone, Debug, PartialEq, o2o::o2o)]")
+    L += [dn, dp]
+    mv = "M { br: s.br," + (f" w: {ks['m']}," if ex["m"] else "") + " }"
+    vv = "V { s: s.s," + (f" m: {mv}," if two else "") + (f" vin: {ks['v']}," if ex["v"] else "") + " }"
+    tv = f"TC {{ d: s.d, v: {vv}," + (f" mil: {ks['top']}," if ex["top"] else "") + " }"
+    L.append(f"fn refn(s: &SC) -> {'Result<TC, super::Er>' if fallible else 'TC'} {{ {wrap(tv)} }}")
+    pv = f"SD {{ d: t.d, m: PM {{ br: t.br, y: t.y, w: {ks['pm']} }}, c: {ks['sd']} }}"
+    L.append(f"fn refp(t: &FC) -> {'Result<SD, super::Er>' if fallible else 'SD'} {{ {wrap(pv)} }}")
+    expect = {}
+    for nm in pc.n_names:
+        for k in kinds_of(nm):
+            expect["N:" + k] = []
+    for nm in pc.p_names:
+        for k in kinds_of(nm):
+            expect["P:" + k] = []
+    pc.expect = pc.__dict__.get("expect", {})
+    pc.expect["f" if fallible else "i"] = expect
+    tag = f"c{pc.cid}{'f' if fallible else 'i'}"
+    pre = "try_" if fallible else ""
+    D = ["pub fn run(log: &mut crate::rt::Log) {", f"    let mut r = crate::rt::Rng::new({pc.cid + 9950});", "    for d in 0..4usize {",
+         "        let sc = SC { d: r.i32(), s: r.i32()," + (" br: r.i32()," if two else "") + " };", "        let fc = FC { br: r.i32(), y: r.i32(), d: r.i32() };"]
+    calls = {
+        "N:owned_into": ("{ let x: Result<TC, super::Er> = sc.clone().try_into(); x }" if fallible else "{ let x: TC = sc.clone().into(); x }", "refn(&sc)"),
+        "N:ref_into": ("{ let x: Result<TC, super::Er> = (&sc).try_into(); x }" if fallible else "{ let x: TC = (&sc).into(); x }", "refn(&sc)"),
+        "P:from_owned": ("SD::try_from(fc.clone())" if fallible else "SD::from(fc.clone())", "refp(&fc)"),
+        "P:from_ref": ("SD::try_from(&fc)" if fallible else "SD::from(&fc)", "refp(&fc)"),
+    }
+    for k, (call, want) in calls.items():
+        if k in expect:
+            D.append(f'        {{ let want = format!("{{:?}}", {want}); crate::rt::probes_take(); let got = crate::rt::guard(|| {call}); log.ev("{tag}", "{pre}{k}", d, "", &got, &want); }}')
+    D += ["    }", "}"]
+    return "\n".join(L + D) + "\n", dn + "\n" + dp
+
+
 def render_case(pc, g):
-    rm = render_struct if pc.kind == "struct" else render_hinted if pc.kind == "hinted" else render_enum
+    rm = render_struct if pc.kind == "struct" else render_hinted if pc.kind == "hinted" else render_nested if pc.kind == "nested" else render_enum
     ci, di = rm(pc, g, False)
     cf, df = rm(pc, g, True)
     code = PRELUDE + "pub mod inf {\n" + ci + "}\npub mod fal {\n" + cf + "}\npub fn run(log: &mut crate::rt::Log) { inf::run(log); fal::run(log); }\n"
